@@ -10,7 +10,7 @@
      - C11_complete_refuted  : the witness replayed on the implementation as the finding. *)
 From Coq Require Import List Ascii String.
 From Verif Require Import Base.Result Base.Str Base.Sexp Model.Tokenizer Spec.Layout Proofs.C11_Main
-  Proofs.C11_Reader.
+  Proofs.C11_Reader Proofs.C11_Lines.
 Import ListNotations.
 
 (* Layout, comment and case invariance; tokens never merge or split (both input modes). *)
@@ -48,6 +48,37 @@ Proof. exact C11_reject_lemma. Qed.
 Theorem C11_no_fuel : forall ts, parse_tokens ts <> Err EFuel.
 Proof. exact parse_tokens_no_fuel. Qed.
 
+(* Round 3.  The token stream does not depend on the line structure: cutting the text after any line feed and
+   tokenizing the pieces one after the other gives the same tokens ... *)
+Theorem C11_split_at_newline : forall (m : mode) (a b : text),
+  tokenize m (a ++ LF :: b) = tokenize m a ++ tokenize m b.
+Proof. exact tokenize_split_at_newline. Qed.
+
+(* ... so the automaton of the model IS the loop of the code: split into lines, cut each line at its first ';',
+   tokenize what is left (lines: free of line ends, of CR too in file mode). *)
+Theorem C11_line_by_line : forall (m : mode) (ls : list text),
+  Forall (Forall (fun c => ends_comment m c = false)) ls ->
+  tokenize m (join_lf ls) = flat_map (fun l => tokenize m (before_semi l)) ls.
+Proof. exact tokenize_line_by_line. Qed.
+
+Example C11_line_by_line_nonvacuous :
+  Forall (Forall (fun c => ends_comment MStr c = false)) [s2t "(a ;x ("; s2t "; y"; s2t " B)"] /\
+  tokenize MStr (join_lf [s2t "(a ;x ("; s2t "; y"; s2t " B)"]) = ["("; "a"; "b"; ")"]%string.
+Proof. exact line_by_line_example. Qed.
+
+(* File input and string input read the same tokens from every text without a lone CR ... *)
+Theorem C11_modes_agree : forall s : text,
+  cr_then_lf s = true -> parse MFile s = parse MStr s /\ tokenize MFile s = tokenize MStr s.
+Proof. exact parse_modes_agree. Qed.
+
+(* ... and the hypothesis is needed: a lone CR inside a comment ends the comment in file mode only. *)
+Theorem C11_modes_differ_on_lone_cr :
+  exists s, cr_then_lf s = false /\ tokenize MFile s <> tokenize MStr s.
+Proof. exact modes_differ_witness. Qed.
+
+Example C11_modes_agree_nonvacuous : cr_then_lf (s2t "(a ;c" ++ CR :: LF :: s2t " b)" ++ [CR]) = true.
+Proof. exact cr_then_lf_example. Qed.
+
 Print Assumptions C11_sound.
 Print Assumptions C11_complete_strict.
 Print Assumptions C11_agree_unless_trailing.
@@ -55,3 +86,7 @@ Print Assumptions C11_complete_partial.
 Print Assumptions C11_complete_refuted.
 Print Assumptions C11_reject.
 Print Assumptions C11_no_fuel.
+Print Assumptions C11_split_at_newline.
+Print Assumptions C11_line_by_line.
+Print Assumptions C11_modes_agree.
+Print Assumptions C11_modes_differ_on_lone_cr.
